@@ -279,14 +279,17 @@ def gen_build(gen_files, bridges, timeout=900):
         rc, out, err = coqc(os.path.join(tmpd, n + '.v'), extra_q=[(tmpd, 'Gen')], timeout=timeout)
         if rc != 0:
             results.append(('generated file ' + n, 'does not compile: ' + (err or out)[-600:])); ok_all = False
-    for n, t in bridges:
+    def _one(nt):
+        n, t = nt
         with open(os.path.join(tmpd, n + '.v'), 'w') as f: f.write(t)
         rc, out, err = coqc(os.path.join(tmpd, n + '.v'), extra_q=[(tmpd, 'Gen')], timeout=timeout)
         bad = re.findall(r'\b(Admitted|admit|Axiom|Parameter|Conjecture)\b', t)
-        if rc != 0: results.append((n, 'bridge obligation fails: ' + (err or out)[-800:]))
-        elif bad: results.append((n, f'forbidden keyword {bad}'))
-        elif 'Axioms:' in out: results.append((n, 'depends on axioms: ' + out[-400:]))
-        else: results.append((n, True))
+        if rc != 0: return (n, 'bridge obligation fails: ' + (err or out)[-800:])
+        if bad: return (n, f'forbidden keyword {bad}')
+        if 'Axioms:' in out: return (n, 'depends on axioms: ' + out[-400:])
+        return (n, True)
+    with concurrent.futures.ThreadPoolExecutor(max_workers=NPROC) as ex:
+        results += list(ex.map(_one, bridges))
     info = {'dir': d, 'dir_hash': dh, 'bridge_results': results}
     # move into place (content addressed, so a concurrent identical build is equivalent)
     if os.path.exists(d): shutil.rmtree(tmpd, ignore_errors=True)
